@@ -44,6 +44,7 @@ type Options struct {
 	ClusterDir     string                // state directory of the cluster (default: a fresh temp dir, removed on Close)
 	KeepGossip     bool                  // do not replace the mesh gossip sender by a sink
 	MessageSize    int
+	ReadRate       int // packets per second a connection may send before it is throttled (0: the broker's default)
 }
 
 // sink swallows everything a single broker would gossip.
@@ -104,6 +105,7 @@ func New(o Options) (*Env, error) {
 	if o.MessageSize > 0 {
 		c.Limit.MessageSize = o.MessageSize
 	}
+	c.Limit.ReadRate = o.ReadRate
 	switch o.Storage {
 	case "", "noop":
 		c.Storage = &cfg.ProviderConfig{Provider: "noop"}
